@@ -52,7 +52,7 @@ def gen_edges(rng, ltype, wtype, nmin=2, nmax=7, lmax=3, recmax=12, profile=None
     n = rng.rint(nmin, nmax)
     L = rng.rint(1, lmax)
     labels = make_labels(rng, n, ltype)
-    nrec = rng.rint(1, recmax)
+    nrec = rng.rint(1, recmax) if rng.chance(0.3) else rng.rint(max(1, n - 1), recmax + n)
     recs = []
     # sink/source structure: optionally forbid some vertices as sources / targets
     no_out = set(i for i in range(n) if rng.chance(0.15))
